@@ -40,7 +40,7 @@ impl Subset for Gvar<'_> {
                 {
                     return None;
                 }
-                self.data_for_gid(x.0)
+                self.data_for_gid(x.1)
                     .ok()
                     .flatten()
                     .map(|data| data.len() as u32)
